@@ -321,8 +321,20 @@ func (h *hist) dagrun(thorough bool) {
 	}
 	// Badger store with a cache SMALLER than the DAG (evicted events are re-read from the database: only what is persisted
 	// survives); compared as a prefix when a pass failed below the supported cache window
+	smallSizes := []int{}
 	if len(ids) >= 150 {
-		cs := 100
+		smallSizes = append(smallSizes, 100)
+	}
+	// ... and with an ODD cache size below the number of events per creator: the per-participant index windows
+	// (RollingIndex, size = cache size) roll over, and the halves of an odd window are not equal
+	// (only when that size is still large: with a cache far below the working set the memoisation of round() is lost
+	// and a pass takes exponential time)
+	if per := len(ids) / len(h.genesis); per >= 80 {
+		cs := (4 * per / 5) | 1
+		smallSizes = append(smallSizes, cs)
+		h.actions["dag-badger-odd-cache-runs"]++
+	}
+	for _, cs := range smallSizes {
 		dir, _ := os.MkdirTemp("", "verif-dagrun")
 		bs, err := hg.NewBadgerStore(cs, dir, false, hx.QuietLogger())
 		if err == nil {
